@@ -120,6 +120,28 @@ fn serialize(p: &Payload, o: &SerOpts) -> Result<String, String> {
     }
 }
 
+pub const F16: &str = "F16-attribute-named-twice-by-the-value-is-written-twice";
+
+/// first element of the (already known to be readable) output whose attribute list yields an error
+/// under the default, duplicate-checking iteration
+fn duplicated_attribute(xml: &str) -> Option<String> {
+    let mut r = Reader::from_reader(xml.as_bytes());
+    for _ in 0..2 * xml.len() + 4 {
+        match r.read_event() {
+            Ok(Event::Eof) | Err(_) => return None,
+            Ok(Event::Start(s)) | Ok(Event::Empty(s)) => {
+                for a in s.attributes() {
+                    if let Err(e) = a {
+                        return Some(format!("attribute list of <{}> does not iterate under the default checks: {:?}", String::from_utf8_lossy(s.name().as_ref()), e));
+                    }
+                }
+            }
+            Ok(_) => {}
+        }
+    }
+    None
+}
+
 pub fn check(c: &Case) -> Verdict {
     let xml = match serialize(&c.value, &c.opts) {
         Ok(x) => x,
@@ -137,6 +159,17 @@ pub fn check(c: &Case) -> Verdict {
         }
     };
     let mut v = Verdict::pass(false).class("serialized");
+    // the attribute lists must also iterate without error the way a user iterates them (duplicate
+    // checking is ON by default)
+    if let Some(m) = duplicated_attribute(&xml) {
+        let repeats = matches!(&c.value, Payload::Dyn(d) if d.repeats_attribute_key());
+        if repeats {
+            // finding F16: the value itself names one attribute twice and the serializer writes both
+            v.known.push(F16);
+        } else {
+            return Verdict::fail(format!("{} | output {:?} | value {:?} | opts {:?}", m, xml, c.value, c.opts));
+        }
+    }
     if let Payload::Dyn(d) = &c.value {
         v.nontrivial = d.has_hostile_payload();
         let neutral = Payload::Dyn(d.neutralised());
